@@ -140,4 +140,73 @@ theorem parseAny_full' (ext : Ext) (fcbSup : Bool) (descs : List (List Seg)) (i 
   cases hfx
   exact ⟨j, hji, hx, parseAny_first_loop' ext fcbSup descs b j _ hjr⟩
 
+/-- the exact selection for a full image made for the `i`-th memory type, without any assumption on the other memory types:
+    the answer is the FIRST memory type in database order whose full-image trial accepts; it is never later than the own one,
+    and when it has the own segment table the answer is init offset 0 and exactly the supplied segments -/
+theorem parseAny_selects' (ext : Ext) (fcbSup : Bool) (descs : List (List Seg)) (i : Nat) (d : Desc) (raws : List (Option Bytes))
+    (hi : descs[i]? = some d.segs)
+    (h : Ctx d 0 raws) (hsup : Supplied 0 (mkSlots d.segs raws)) (hdel : Delimit ext fcbSup 0 (mkSlots d.segs raws))
+    (b : Bytes) (hb : exportImg d 0 raws = .ok b) :
+    ∃ j sj r, j ≤ i ∧ descs[j]? = some sj ∧
+      (∀ k, k < j → ∀ s, descs[k]? = some s → trial ext fcbSup s b 0 = none) ∧
+      trial ext fcbSup sj b 0 = some r ∧ parseAny ext fcbSup descs b = .ok (j, r.1, r.2) ∧
+      (sj = d.segs → r = (0, expectedFound 0 (mkSlots d.segs raws))) := by
+  have ht : trial ext fcbSup d.segs b 0 = some (0, expectedFound 0 (mkSlots d.segs raws)) := by
+    have := bimgP_trial ext fcbSup d 0 raws h hsup hdel b hb
+    simpa using this
+  obtain ⟨j, r, hjr, hle⟩ := bimgA_firstSomeIdx_exists (fun segs => trial ext fcbSup segs b 0) descs 0 i d.segs _ hi ht
+  obtain ⟨_, x, hx, hfx, hall⟩ := bimgA_firstSomeIdx_some _ descs 0 j r hjr
+  simp only [Nat.sub_zero] at hx hall
+  refine ⟨j, x, r, by omega, hx, hall, hfx, parseAny_first_loop' ext fcbSup descs b j _ hjr, ?_⟩
+  intro hxd
+  subst hxd
+  rw [ht] at hfx
+  cases hfx
+  rfl
+
+/-- … hence the answer is NOT (a memory type with the own segment table, init offset 0, the supplied segments) exactly when
+    the first memory type whose full-image trial accepts the image comes before the own one and has ANOTHER segment table -/
+theorem parseAny_ambiguous_iff' (ext : Ext) (fcbSup : Bool) (descs : List (List Seg)) (i : Nat) (d : Desc) (raws : List (Option Bytes))
+    (hi : descs[i]? = some d.segs)
+    (h : Ctx d 0 raws) (hsup : Supplied 0 (mkSlots d.segs raws)) (hdel : Delimit ext fcbSup 0 (mkSlots d.segs raws))
+    (b : Bytes) (hb : exportImg d 0 raws = .ok b) :
+    (¬ ∃ j, descs[j]? = some d.segs ∧
+        parseAny ext fcbSup descs b = .ok (j, 0, expectedFound 0 (mkSlots d.segs raws))) ↔
+    ∃ k s, k < i ∧ descs[k]? = some s ∧ s ≠ d.segs ∧ (trial ext fcbSup s b 0).isSome = true ∧
+      ∀ k', k' < k → ∀ s', descs[k']? = some s' → trial ext fcbSup s' b 0 = none := by
+  obtain ⟨j, sj, r, hji, hj, hall, hr, hp, hown⟩ := parseAny_selects' ext fcbSup descs i d raws hi h hsup hdel b hb
+  constructor
+  · intro hno
+    have hne : sj ≠ d.segs := by
+      intro e
+      have hr' := hown e
+      subst hr'
+      subst e
+      exact hno ⟨j, hj, hp⟩
+    have hlt : j < i := by
+      rcases Nat.lt_or_ge j i with hlt | hge
+      · exact hlt
+      · have : j = i := by omega
+        subst this
+        rw [hi] at hj
+        cases hj
+        exact absurd rfl hne
+    exact ⟨j, sj, hlt, hj, hne, by rw [hr]; rfl, hall⟩
+  · rintro ⟨k, s, hki, hk, hne, hacc, hbefore⟩ ⟨j', hj', hp'⟩
+    rw [hp] at hp'
+    simp only [Except.ok.injEq, Prod.mk.injEq] at hp'
+    obtain ⟨hjj, _, _⟩ := hp'
+    subst hjj
+    -- the first acceptor is unique: j = k
+    rcases Nat.lt_trichotomy j k with hlt | heq | hgt
+    · have := hbefore j hlt sj hj
+      rw [this] at hr; cases hr
+    · subst heq
+      rw [hk] at hj'
+      cases hj'
+      exact hne rfl
+    · have := hall k hgt s hk
+      rw [this] at hacc; cases hacc
+
+
 end SpsdkVerif.Bimg
